@@ -20,10 +20,10 @@ def main(tier, seed):
     return dbtie.db_check("C07", tier, seed, PROFILE, 650, 6000, "Prop_C07",
                           "user callables and re are an environment the theorems quantify over; the tie instantiates them with the twin table", kwargs_for=kwargs_for,
                           pre=lambda: (run_translator("py2coq_index.py", "tinyflux/index.py", "gen/IndexGen.v", refused), run_translator("py2coq_dbget.py", "tinyflux", "gen/DbGetGen.v", refused)),
-                          extra_cov={"translator_database_getters": {"source": "tinyflux/database.py: TinyFlux.__len__, get_measurements, get_field_keys, get_tag_keys, get_field_values, get_timestamps, get_tag_values -> coq/gen/DbGetGen.v "
+                          extra_cov={"translator_database_getters": {"source": "tinyflux/database.py: TinyFlux.__len__, get_measurements, get_field_keys, get_tag_keys, get_field_values, get_timestamps, get_tag_values, and tinyflux/measurement.py: Measurement.__len__ -> coq/gen/DbGetGen.v "
                                                                                "(compiled on this run by harness/py2coq_dbget.py; both paths; the read_op decorator checked and applied as DbSem.db_prelude)",
                                                                      "refused": refused, "equivalence_theorem": "source_db_len, source_db_get_measurements / _field_keys / _tag_keys / _field_values / _timestamps (C07_source_db_*_exact); "
-                                                                                                                "source_db_get_tag_values (C07_source_db_tag_values_exact)"},
+                                                                                                                "source_db_get_tag_values (C07_source_db_tag_values_exact), source_handle_len_is_the_model / _exact (C07_source_handle_len_*)"},
                                      "translator_index_getters": {"source": "tinyflux/index.py: Index.__len__, valid, get_measurements, get_field_keys, get_tag_keys, get_timestamps, get_field_values, get_tag_values (and the maintenance methods) -> "
                                                                             "coq/gen/IndexGen.v (compiled on this run by harness/py2coq_index.py)",
                                                                   "refused": refused, "equivalence_theorem": "gen_len_eq, gen_valid_eq, gen_get_measurements_eq, gen_get_timestamps_eq, gen_get_field_values_eq, gen_get_field_keys_eq, gen_get_tag_keys_eq, gen_get_tag_values_eq (C07_source_index_*)"}})
